@@ -703,14 +703,14 @@ func (p *pp) handleMethods(verb rune) (handled bool) {
 
 func (p *pp) printArg(arg interface{}, verb rune) {
 	t := reflect.TypeOf(arg)
-	if safeTypeRegistry[t] {
-		defer p.startSafeOverride().restore()
-	} else if t == safeWrapperType {
+	if t == safeWrapperType {
 		defer p.startSafeOverride().restore()
 		arg = arg.(w.SafeWrapper).GetValue()
 	} else if t == unsafeWrapperType {
 		defer p.startUnsafeOverride().restore()
 		arg = arg.(w.UnsafeWrap).GetValue()
+	} else if safeTypeRegistry[t] {
+		defer p.startSafeOverride().restore()
 	}
 
 	if _, ok := arg.(i.SafeValue); ok {
